@@ -165,8 +165,9 @@ def _expand(call, target_kind, target, helper, is_method):
     return pre + new
 
 
-def inlined(module, func, depth=2):
-    """module: sa.core.Module.  Returns (new function node, names of helpers that were inlined)."""
+def inlined(module, func, depth=2, tests=False):
+    """module: sa.core.Module.  Returns (new function node, names of helpers that were inlined).
+    tests=True also expands predicate helpers called as the whole test of an `if`."""
     cls = getattr(func, "_parent", None)
     while cls is not None and not isinstance(cls, ast.ClassDef):
         cls = getattr(cls, "_parent", None)
@@ -214,7 +215,7 @@ def inlined(module, func, depth=2):
                 if rep is not None:
                     out.extend(rep)
                     continue
-                if isinstance(st, ast.If):
+                if tests and isinstance(st, ast.If):
                     # `if self._pred(x):` / `if not self._pred(x):` - the predicate's body decides a fresh local first
                     t = st.test
                     neg = isinstance(t, ast.UnaryOp) and isinstance(t.op, ast.Not)
